@@ -12,6 +12,7 @@
    alias still runs the old body).  This is exactly what the finding tco-by-name violates. *)
 From Coq Require Import ZArith List.
 Require Import ZV.Model.RefSemTco ZV.Proofs.RefSemTcoProofs ZV.Proofs.RefSemTcoConverse ZV.Proofs.RefSemTcoSpace.
+Require Import ZV.Model.TailSites ZV.Generated.TailSites ZV.Model.TailSitesRun ZV.Proofs.TailSitesProofs ZV.Proofs.TailSitesRunProofs ZV.Proofs.TailSitesCore.
 Import ListNotations.
 Open Scope Z_scope.
 
@@ -177,6 +178,71 @@ Theorem self_call_rule : forall self tl f nargs nm c,
 Proof. exact self_call_rule_proof. Qed.
 Print Assumptions self_call_rule.
 
+(* ---- the compile-time side for ALL forms of the generator (Model/TailSites.v).
+   tail_sites / tail_exits / tail_gotos are GENERATED from zygo/*.go on every run (translator/cmd/tailsites):
+   the values Generator.Tail can have at every place where a sub-form is handed to the compiler.  A path is
+   any nesting of (special form, sub-form position); path_flag follows the sites such a sub-form passes. *)
+
+(* for ANY table that passes the boolean check, over ALL nestings that avoid the listed leaks: the flag that
+   arrives is the one the specification (the property's list of tail positions) computes *)
+Theorem tail_sites_sound : forall leaks tbl exits gotos, table_ok leaks tbl exits gotos = true ->
+  forall p x, (forall q, In q p -> ~ In q leaks) -> x <> SBoth ->
+  path_flag tbl p x = Some (spec_path p x).
+Proof. exact path_sound. Qed.
+Print Assumptions tail_sites_sound.
+
+(* the table generated from the current generator.go passes the check with three positions set aside *)
+Theorem tail_sites_generated_ok : table_ok known_leaks tail_sites tail_exits tail_gotos = true.
+Proof. exact generated_table_ok. Qed.
+Print Assumptions tail_sites_generated_ok.
+
+(* generator.go as it is: in a function body (flag set), for every nesting of forms, a sub-form is compiled
+   with Tail = true IFF every step down to it is one of the property's tail positions *)
+Theorem tail_flag_iff_tail_position_all_forms : forall p, leak_free p ->
+  exists y, path_flag tail_sites p ST = Some y /\ (y = ST <-> forallb tail_pos p = true).
+Proof. exact generated_flag_iff_tail_position. Qed.
+Print Assumptions tail_flag_iff_tail_position_all_forms.
+
+(* any other entry into the compiler (top level, call arguments evaluated at run time, thunks, source):
+   the flag never arrives *)
+Theorem no_flag_outside_function_bodies : forall p, leak_free p ->
+  exists y, path_flag tail_sites p SF = Some y /\ y <> ST.
+Proof. exact generated_no_flag_no_tail. Qed.
+Print Assumptions no_flag_outside_function_bodies.
+
+(* the number of goto 0 the generator emits for a nest of positions with one self call at its end; the
+   extracted runner computes jumps_run (a precomputed, string-free copy), the harness counts the real bytecode *)
+Theorem tail_jumps_all_forms : forall p, leak_free p -> jumps_run p ST = Some (spec_jumps p ST).
+Proof. intros p H. rewrite jumps_run_eq. exact (generated_jumps p H). Qed.
+Print Assumptions tail_jumps_all_forms.
+
+(* every compiling method leaves the flag as it found it or cleared (never set after a non-tail form), and
+   the jump is emitted by GenerateCallBySymbol only when it was entered with the flag *)
+Theorem tail_flag_never_raised : forall e, In e tail_exits -> e_in0 e = SF /\ e_in1 e <> SNone.
+Proof. exact generated_exits_monotone. Qed.
+Print Assumptions tail_flag_never_raised.
+Theorem goto_needs_flag : forall g, In g tail_gotos -> g_in0 g = false /\ g_in1 g = true.
+Proof. exact generated_goto_needs_flag. Qed.
+Print Assumptions goto_needs_flag.
+
+(* on the expressions of the modelled core: the real generator's table gives the flag to exactly the
+   sub-expressions that are in tail position by the rules of the model's evaluator (tail_flag_rules) *)
+Theorem tail_sites_agree_with_model : forall body sub,
+  in_tail_position body sub <-> exists p, expr_path body p sub /\ path_flag tail_sites p ST = Some ST.
+Proof. exact generated_flag_iff_in_tail_position. Qed.
+Print Assumptions tail_sites_agree_with_model.
+
+(* the FULL statement (leak_free dropped) is false of the code as it is: two findings, replayed on the real
+   interpreter by the check (KNOWN_FINDINGS tco-def-lhs, tco-include-nonlast) *)
+Theorem tail_flag_refuted_def_target :
+  exists p, path_flag tail_sites p ST = Some ST /\ forallb tail_pos p = false.
+Proof. exact generated_refuted_def_lhs. Qed.
+Print Assumptions tail_flag_refuted_def_target.
+Theorem tail_flag_refuted_include_nonlast_file :
+  exists p, path_flag tail_sites p ST = Some ST /\ forallb tail_pos p = false.
+Proof. exact generated_refuted_include_nonlast_file. Qed.
+Print Assumptions tail_flag_refuted_include_nonlast_file.
+
 (* ---- non-vacuity (tests, not theorems): the loop f(n) = if n == 0 then 0 else f(n-1) ---- *)
 Definition loop_prog (tailcall : bool) (n : Z) : list expr :=
   [EDefn 100 [101] None
@@ -207,3 +273,14 @@ Proof. vm_compute. split; reflexivity. Qed.
 Example in_tail_position_nested :
   in_tail_position (ECond [(EBool true, EBegin ([EInt 1] ++ [EAnd ([EBool true] ++ [EVar 7])]))] ENil) (EVar 7).
 Proof. apply (tp_cond_arm [] (EBool true) _ [] ENil). apply tp_begin. apply tp_and. apply tp_here. Qed.
+
+(* the generated table: a let body inside a cond arm inside an and is a tail path, a let initialiser is not;
+   the self call in an argument of a self tail call is not a jump, the enclosing one is *)
+Example tail_sites_examples :
+  path_flag tail_sites [PBodyLast; PCondArm; PAndLast; PLetBodyLast; PInfixLast; PMacroExpansion] ST = Some ST
+  /\ path_flag tail_sites [PBodyLast; PCondArm; PLetInit; PBeginLast] ST = Some SF
+  /\ path_flag tail_sites [PBodyLast; PSqUnquoteInList] ST = Some SF
+  /\ jumps_run [PBodyLast; PCondDefault; PSelfArg; PBeginLast] ST = Some 1%nat
+  /\ jumps_run [PBodyLast; PForBodyLast] ST = Some 0%nat
+  /\ Nat.ltb 30 (length tail_sites) = true.
+Proof. vm_compute. repeat split; reflexivity. Qed.
